@@ -52,9 +52,10 @@ def Enab.levelOf (σ : Store) : Enab → Level
 /-! ## fields -/
 
 structure Fld where
+  kind : Nat := 0              -- 0 object marshaler (observable marshaling) · 1 namespace · 2 int · 3 string
   key : Nat
-  ref : Option Nat := none
-  val : Nat := 0
+  ref : Option Nat := none     -- some k: a mutable marshaler, reads cell k whenever it is marshaled
+  val : Option Nat := none     -- the value an encoder saw (set by `resolve`), or the constant of an int/string field
 deriving DecidableEq, Repr, Inhabited
 
 /-- valuation of the mutable cells read by `ref` fields -/
@@ -62,7 +63,7 @@ abbrev Val := Nat → Nat
 
 def Fld.resolve (μ : Val) (f : Fld) : Fld :=
   match f.ref with
-  | some k => { f with ref := none, val := μ k }
+  | some k => { f with ref := none, val := some (μ k) }
   | none => f
 
 /-- a field as handed to `With`: what an observer stores (`raw`) and what an encoder serialises (`res`) -/
@@ -143,6 +144,19 @@ def levelOfAll (σ : Store) : List Core → Level
   | [] => invalidL
   | c :: cs => min (levelOf σ c) (levelOfAll σ cs)
 end
+
+/-- `NewIncreaseLevelCore`: refused (the caller keeps the inner core) when the new enabler enables a valid level that
+    the core does not -/
+def incrValid (σ : Store) (c : Core) (en : Enab) : Bool :=
+  validLevels.all fun l => !(en.on σ l) || enabled σ c l
+
+def mkIncr (σ : Store) (c : Core) (en : Enab) : Core := if incrValid σ c en then .incr c en else c
+
+/-- `NewTee` -/
+def mkTee : List Core → Core
+  | [] => .nop
+  | [c] => c
+  | cs => .tee cs
 
 /-- what the un-repaired `multiCore.Level` computes (starts from `_maxLevel`) -/
 def levelOfAllOld (σ : Store) : List Core → Level
@@ -311,9 +325,14 @@ def writeItem (μ : Val) (l : Level) (fs : List Fld) : Item → List Ev
       else [.write id false (ctx ++ fs)]
   | .hook h => [.hook h]
 
+/-- the `hook.OnWrite` at the end of `CheckedEntry.Write` -/
+def termEvs : Option Action → List Ev
+  | some a => [.term a]
+  | none => []
+
 /-- zapcore/entry.go:CheckedEntry.Write -/
 def CE.write (μ : Val) (l : Level) (fs : List Fld) (ce : CE) : List Ev :=
-  ce.items.flatMap (writeItem μ l fs) ++ (match ce.after with | some a => [.term a] | none => [])
+  ce.items.flatMap (writeItem μ l fs) ++ termEvs ce.after
 
 /-- `if ce := log.check(lvl, msg); ce != nil { ce.Write(fields...) }` -/
 def Logger.log (σ : Store) (μ : Val) (lg : Logger) (l : Level) (fs : List Fld) (w : W) : W :=
@@ -358,7 +377,7 @@ structure FrontEnd where
   chain : List String
 deriving Repr
 
-def FrontEnd.admits (fe : FrontEnd) (l : Level) : Bool :=
+def FrontEnd.takes (fe : FrontEnd) (l : Level) : Bool :=
   match fe.level with
   | some k => decide (k = l)
   | none => true
